@@ -19,9 +19,24 @@ type c14Event struct {
 	S     [3]int `json:"s"`
 	Panic string `json:"panic"`
 	Cls   string `json:"cls"`
+	// Intact: the call left the caller's memory alone - the buffer itself and the bytes that follow it in
+	// the same backing array (extraction reads; it must never write)
+	Intact bool `json:"intact"`
 }
 
 func c14Call(w *tr.Writer, buf []byte, pos, n int, cls string) {
+	// the buffer is handed over as a slice of a larger array: what lies behind it belongs to the caller too
+	backing := make([]byte, len(buf)+16)
+	copy(backing, buf)
+	for i := len(buf); i < len(backing); i++ {
+		backing[i] = 0xa5
+	}
+	c14CallOn(w, backing, len(buf), pos, n, cls)
+}
+
+func c14CallOn(w *tr.Writer, backing []byte, blen, pos, n int, cls string) {
+	buf := backing[:blen]
+	before := append([]byte{}, backing...)
 	ev := c14Event{Buf: tr.Ints(buf), Pos: pos, Len: n, Cls: cls}
 	ev.Panic = tr.Recover(func() {
 		ev.U = tr.Limbs(utils.GetBitsAsUint64(buf, uint(pos), uint(n)))
@@ -29,6 +44,7 @@ func c14Call(w *tr.Writer, buf []byte, pos, n int, cls string) {
 			ev.S = tr.Limbs(uint64(utils.GetBitsAsInt64(buf, uint(pos), uint(n))))
 		}
 	})
+	ev.Intact = string(before) == string(backing)
 	w.Emit(ev)
 }
 
@@ -97,5 +113,31 @@ func c14(args []string) {
 		buf := make([]byte, nbytes)
 		rand.New(rand.NewSource(rng.Int63())).Read(buf)
 		c14Call(w, buf, pos, n, "random")
+	}
+	// history: ONE buffer, refilled in place between calls (a read buffer that is reused): every extraction sees
+	// the bytes that are in the buffer now, wherever the previous extraction looked
+	shared := make([]byte, 40+16)
+	for i := 40; i < len(shared); i++ {
+		shared[i] = 0xa5
+	}
+	for i := 0; i < nr/4; i++ {
+		switch rng.Intn(3) {
+		case 0: // all new
+			rng.Read(shared[:40])
+		case 1: // a few bits
+			for k := 0; k < 1+rng.Intn(3); k++ {
+				shared[rng.Intn(40)] ^= byte(1 << uint(rng.Intn(8)))
+			}
+		default: // complement
+			for k := 0; k < 40; k++ {
+				shared[k] ^= 0xff
+			}
+		}
+		n := 1 + rng.Intn(64)
+		pos := rng.Intn(40*8 - n)
+		if i%2 == 1 {
+			pos = rng.Intn(24) // the same few bytes again and again
+		}
+		c14CallOn(w, shared, 40, pos, n, "reused buffer")
 	}
 }
